@@ -36,6 +36,11 @@ CHECKS = {
         "steps": [vc("c10", "random", 60000, 3200000)],
         "assumptions": L1_ASSUME + ["the rule table (harness/vchecks/src/c10.rs, DESIGN.md Appendix C) is the reading of the property statement; options the statement does not define (bound, word = false, valued from_ident, attributes on pass-through magic fields, n-tuples under element-level derives) are not generated"],
     },
+    "C19": {
+        "packages": ["vchecks"],
+        "steps": [vc("c19", "usage", 40000, 1600000)],
+        "assumptions": L1_ASSUME + ["the expected answer is known by construction (the generator labels every planted occurrence); binder lifetimes are drawn from a pool that is never queried"],
+    },
     "C05": {
         "packages": ["vchecks"],
         "steps": [vc("c05", "histories", 40000, 1600000)],
